@@ -248,6 +248,8 @@ def check(ix, rep):
                 normalisers[id(nf)] = nf
             n += 1
     rep.floor('pastifier/horizon handlers of timed operators', n, 14)
+    nrb = unitflow.check_raw_bounds(ix, rep)
+    rep.floor('functions reading the bounds of a timed node', nrb, 3)
     nl = check_exact_lifts(ix, rep)
     rep.floor('Fraction(...) lifts', nl, 5)
     # online: operators are stored under the printed name, so the name has to carry both bounds *with their units*
